@@ -180,6 +180,8 @@ impl<Data: Clone + Debug> From<TimelineConfiguration<Data>> for TimelineBuilderA
         };
         args.keyframes
             .sort_by(|a, b| a.normalized_time.total_cmp(&b.normalized_time));
+        // Boundary times must follow the sorted keyframe order, not the insertion order.
+        args.boundary_times = args.keyframes.iter().map(|k| k.normalized_time).collect();
         args
     }
 }
